@@ -165,3 +165,26 @@ Fixpoint first_diff (e : hobs -> hobs -> bool) (a b : list hobs) (i : nat) : opt
 Definition hn_case_diff (cs : hn_case) :=
   first_diff (if hc_regime cs then hobs_eqb else hobs_weak_eqb)
              (run (table_dist (hc_vecs cs) (hc_dist cs)) (hc_cfg cs) hnsw_empty (hc_ops cs)) (hc_obs cs) 0.
+
+(* ---- C07: small insert-only collections ---- *)
+Record ex_case := {
+  ec_cfg : cfg; ec_vecs : list vec; ec_dist : list (list Z);
+  ec_items : list (N * vec * meta * nat);
+  ec_queries : list (vec * nat * list (N * Z))        (* query, k, observed (id, score) *)
+}.
+Definition build_small (dist : vec -> vec -> Z) (c : cfg) (its : list (N * vec * meta * nat)) : hnsw :=
+  fold_left (fun s '(id, v, m, l) => fst (insert dist ord_id c s id v m l)) its hnsw_empty.
+Definition brute (dist : vec -> vec -> Z) (its : list (N * vec * meta * nat)) (q : vec) (k : nat) : list (N * Z) :=
+  firstn k (sort_by (fun a b => (snd a <? snd b)%Z) (map (fun '(id, v, _, _) => (id, dist q v)) its)).
+Definition idz_eqb (a b : list (N * Z)) : bool := list_eqb (fun x y => (fst x =? fst y) && (snd x =? snd y)%Z) a b.
+(* the property on the implementation's answers: exactly the k nearest in exact order *)
+Definition ex_case_oracle_ok (cs : ex_case) : bool :=
+  let d := table_dist (ec_vecs cs) (ec_dist cs) in
+  forallb (fun '(q, k, obs) => idz_eqb obs (brute d (ec_items cs) q k)) (ec_queries cs).
+(* the model: same answers, and its beam covers every live vertex (the hypothesis of C07_exact_partial) *)
+Definition ex_case_model_ok (cs : ex_case) : bool :=
+  let d := table_dist (ec_vecs cs) (ec_dist cs) in
+  let s := build_small d (ec_cfg cs) (ec_items cs) in
+  forallb (fun '(q, k, obs) =>
+             idz_eqb obs (map (fun x => (fst (fst x), snd x)) (search d ord_id (ec_cfg cs) s q k)) &&
+             covers_b s (beam d ord_id (ec_cfg cs) s q k)) (ec_queries cs).
